@@ -66,6 +66,28 @@ Theorem C20_queue_length_partial : forall c ls1 ls2,
 Proof. exact queue_length_partial. Qed.
 Print Assumptions C20_queue_length_partial.
 
+(* The same WITHOUT the scheduling hypothesis: erase from the label list the pops that found the ring empty (they deliver
+   nothing and change nothing); on what remains the run IS the unlimited FIFO list: every delivery is the list's head
+   (order, nothing twice, nothing skipped), purge reports and removes everything, queueLength is the list's length. *)
+Theorem C19_order_exactly_once_partial : forall c ls,
+  let r := q_run c q_init ls in
+  let ls' := effective ls (snd r) in
+  wf_client ls' = true -> no_findings_safety c ls = true ->
+  effective_outs ls (snd r) = snd (spec_run [] ls') /\
+  q_abs (fst r) = fst (spec_run [] ls') /\
+  qlen (fst r) = Z.of_nat (length (fst (spec_run [] ls'))).
+Proof. exact order_exactly_once_partial. Qed.
+Print Assumptions C19_order_exactly_once_partial.
+
+Example C19_order_hypotheses_inhabited :
+  (* pops on an empty ring while message 4 waits on disk, then flush, load, deliver *)
+  let ls := [Push 1 false; Push 2 false; Push 3 false; Push 4 false; Pop; Pop; Pop; Pop; Pop; PersistTick false; LoaderTurn; Pop; Pop] in
+  let r := q_run (mkCfg false 2) q_init ls in
+  wf_client (effective ls (snd r)) = true /\ no_findings_safety (mkCfg false 2) ls = true /\
+  no_findings (mkCfg false 2) ls = false /\
+  effective_outs ls (snd r) = [ONone; ONone; ONone; ONone; OPop (Some 1); OPop (Some 2); OPop (Some 3); ONone; ONone; OPop (Some 4)].
+Proof. vm_compute. repeat split; reflexivity. Qed.
+
 (* Non-vacuity: one client workload (persistent and transient messages, a requeue, an ack) under limit 2 (overflows to
    both stores, reloads in two rounds) and under limit 100 (never overflows), with different schedules: the hypotheses
    hold for both, the queue does overflow under limit 2, and the conclusion is computed. *)
